@@ -183,7 +183,7 @@ def decrypt_message(blob, recipient=None, passphrase=None):
 
 
 def encrypt_message(inner, alg, recipients=(), passphrases=(), sk=None, s2k=(3, 8, 96), fmt='new', partial=False, esk_plain_session=False,
-                    zero_lead_shared=False, pad40=False, skesk_alg=None):
+                    zero_lead_shared=False, pad40=False, skesk_alg=None, final_len=None):
     """Independent encryption. recipients: list of dicts describing public keys:
        {'kind': 'rsa', 'keyid': b8, 'n': int, 'e': int} or {'kind': 'ecdh', 'keyid', 'oid', 'curve': name|'cv25519', 'point': bytes, 'kdf': (h, k), 'fpr': b20}.
     Returns (blob, log)."""
@@ -254,5 +254,10 @@ def encrypt_message(inner, alg, recipients=(), passphrases=(), sk=None, s2k=(3, 
     ct = cfb(alg, sk, pt, False)
     log['seipd'] = {'alg': alg, 'bs': bs, 'version': 1, 'pt': list(pt), 'sk': list(sk), 'sha1_over_all_but_last_20': list(pt[-20:])}
     body = b'\x01' + ct
-    out += build.pkt(18, body, fmt='new', chunks=[9, 9] if partial and len(body) > 1100 else None)
+    chunks = [9, 9] if partial and len(body) > 1100 else None
+    if final_len is not None and len(body) - final_len >= 512:
+        # partial body lengths such that the FINAL (definite) length is exactly final_len: the rest in decreasing powers of two, first >= 512
+        rest = len(body) - final_len
+        chunks = [k for k in range(30, -1, -1) if rest & (1 << k)]
+    out += build.pkt(18, body, fmt='new', chunks=chunks)
     return out, log
